@@ -14,9 +14,20 @@ def _point(rng, d, n):
     return [rng.randrange(-1, n + 1) for _ in range(d)]
 
 
-def gen_ops(rng, d, n, length):
+def gen_ops(rng, d, n, length, dflt=0):
     ops, pts = [], []
     for _ in range(length):
+        if d >= 2 and rng.random() < 0.05:
+            # in-place addition through the handle of a LEAF FIBER (a partial point of length d-1): first a fiber,
+            # which leaves that operand's active range on the stored sub-fiber, then a scalar, which must still
+            # reach every coordinate of the rank's shape — followed by a read at the far end
+            pre = _point(rng, d - 1, n)
+            if rng.random() < 0.7:
+                ops.append({"k": "iaddfp", "p": pre, "f": H.gen_tree(rng, 1, max(1, n - 1), (1, 2, -3), dflt)})
+            ops.append({"k": "iaddsp", "p": pre, "v": rng.choice([1, -1, 2])})
+            ops.append({"k": "get", "p": pre + [rng.randrange(0, n + 1)]})
+            pts.append(pre + [n - 1])
+            continue
         r = rng.random()
         # re-use earlier points often so that writes are read back
         p = rng.choice(pts) if pts and rng.random() < 0.5 else _point(rng, d, n)
@@ -95,7 +106,7 @@ def gen(seed, tier):
         t = H.gen_tree(rng, d, n, (1, 2, -3, 7, 0), dflt)
         kind = "owned" if d >= 2 or rng.random() < 0.5 else "free"
         length = rng.choice([3, 6, 10]) if tier == "quick" else rng.choice([5, 12, 40])
-        ops = gen_ops(rng, d, n, length)
+        ops = gen_ops(rng, d, n, length, dflt)
         # configuration that must not matter to point access: per-rank formats (not together with fiber
         # assignment, which copies what an uncompressed source PRESENTS, explicit defaults included), a
         # declared shape, fibers built with their own default 0 inside a tensor of another default
@@ -105,7 +116,7 @@ def gen(seed, tier):
             # a declared shape — sometimes smaller than coordinates that get written (the library does not
             # check coordinates against it, and point access must not depend on it)
             cfg = {"shape": [rng.choice([n + 1, n + 2, 2, 1])] * d}
-            if not any(o["k"] in ("assignp", "imulp") for o in ops):
+            if not any(o["k"] in ("assignp", "imulp", "iaddfp", "iaddsp") for o in ops):
                 cfg["fmt"] = [rng.choice("CU") for _ in range(d)]
         elif r4 < 0.4:
             cfg = {"fib0": True}
@@ -243,6 +254,18 @@ def run(case):
                 out = H.snapshot(acc.getPayload(*p))
                 if H.snapshot(src) != src_before:
                     side["assignment_source_unchanged"] = False
+            elif k in ("iaddfp", "iaddsp"):
+                ref = acc.getPayloadRef(*p)             # the stored leaf fiber under the prefix
+                if k == "iaddfp":
+                    ref += H.build_fiber(op["f"], 1, dflt)
+                    # `+= fiber` is a populate loop: an element whose sum is the default is removed from the tree,
+                    # so a handle held for it no longer denotes a stored payload
+                    for q in [q for q in held if list(q[:len(p)]) == p]:
+                        del held[q]
+                else:
+                    op["shape"] = int(ref.getShape(all_ranks=False) or 0)   # the extent `+= scalar` must cover
+                    ref += op["v"]
+                out = H.snapshot(acc.getPayload(*p))
             elif k == "imulp":
                 ref = acc.getPayloadRef(*p) if p else root
                 ref *= op["v"]
@@ -271,7 +294,7 @@ def nontrivial(case, verdict):
     if case["op"] == "pos":
         return "start_pos" in t or "found" in t
     ks = [o["k"] for o in case["ops"]]
-    wrote = [i for i, k in enumerate(ks) if k in ("assign", "iadd", "assignp", "imulp")]
+    wrote = [i for i, k in enumerate(ks) if k in ("assign", "iadd", "assignp", "imulp", "iaddfp", "iaddsp")]
     read_after = wrote and any(k in ("get", "getd", "getprefix") for k in ks[wrote[0] + 1:])
     return bool(read_after) or "residue" in t
 
